@@ -166,14 +166,16 @@ def judge(ctx, acc, res, believed):
 
 
 def run(ctx, exe, pts, scale, phase_timeout, launch_timeout, chunk, jobs, deadline):
+    """Rounds: run every pending point (several per launch); a rank-oracle violation is believed at once; a session that did not
+    complete (hang / crash) is re-run ALONE in a fresh launch, nothing else in flight, with 4x the limits - confirmed => violation.
+    The run stops at the first believed violation (the remaining points are reported as not run)."""
     root = os.path.join('/tmp', 'verif-mp-C14-%d' % os.getpid())
     acc = Acc()
     violations, unconfirmed = [], []
     pending = list(pts)
     skipped = []
     rnd = 0
-    suspects_all = []
-    while pending:
+    while pending and not violations:
         rnd += 1
         launches = []
         for n in (2, 3, 4):
@@ -182,34 +184,39 @@ def run(ctx, exe, pts, scale, phase_timeout, launch_timeout, chunk, jobs, deadli
             nch = (len(mine) + per - 1) // per
             for i in range(nch):                      # strided: the sessions with big transfers are spread over the launches
                 launches.append(make_launch(exe, 'r%d-n%d-%d' % (rnd, n, i), n, mine[i::nch], scale, phase_timeout, launch_timeout))
-        # the longest launches (most ranks) first
-        launches.sort(key=lambda l: -l.n)
+        launches.sort(key=lambda l: -l.n)             # the longest launches (most ranks) first
         results, skip = mp.run_box(launches, root, jobs=jobs, timeout=launch_timeout, deadline=deadline, confirm=False, max_ranks=32)
         pending = []
-        for s in skip:
-            skipped.extend(s.meta['pts'])
+        suspects = []
+        for sk in skip:
+            skipped.extend(sk.meta['pts'])
         for res in results:
             if os.environ.get('C14_TIMES'):
                 sys.stderr.write('launch %s n=%d sessions=%d status=%s elapsed=%.1fs\n' % (res.launch.key, res.launch.n, len(res.launch.meta['pts']), res.status, res.elapsed))
-            v, s, u = judge(ctx, acc, res, False)
+            v, su, u = judge(ctx, acc, res, False)
             violations.extend(v)
-            suspects_all.extend(s)
+            suspects.extend(su)
             pending.extend(u)
-        if rnd > 6:
+        if violations:
             break
-    # confirmation: each suspect alone in a fresh launch, nothing else in flight, 4x the limits
-    for pt, why in suspects_all:
-        if deadline is not None and time.time() > deadline + 240:
-            unconfirmed.append((pt, why + ' [not re-run: deadline]'))
-            continue
-        l = make_launch(exe, 'confirm-n%d-%s' % (pt['n'], '_'.join(map(str, pt['c']))), pt['n'], [pt], scale, 4 * phase_timeout, 4 * launch_timeout)
-        res = mp.run_one(l, root, 4 * launch_timeout)
-        v, s, u = judge(ctx, acc, res, True)
-        violations.extend(v)
-        if s:
-            violations.append((pt, 'confirmed alone with 4x limits: ' + s[0][1] + ' [first seen: ' + why[:300] + ']'))
-        elif not v:
-            unconfirmed.append((pt, why))
+        # confirmation: suspects alone in a fresh launch, nothing else in flight, 4x the limits; smallest process count first
+        suspects.sort(key=lambda x: x[0]['n'])
+        for k, (pt, why) in enumerate(suspects):
+            if violations or k >= 3:
+                # a violation is already established (or 3 suspects were not reproduced): the others go back to the queue
+                pending.append(pt)
+                continue
+            l = make_launch(exe, 'confirm-n%d-%s' % (pt['n'], '_'.join(map(str, pt['c']))), pt['n'], [pt], scale, 4 * phase_timeout, 4 * launch_timeout)
+            res = mp.run_one(l, root, 4 * launch_timeout)
+            v, su, u = judge(ctx, acc, res, True)
+            violations.extend(v)
+            if su:
+                violations.append((pt, 'confirmed alone with 4x limits: ' + su[0][1] + ' [first seen: ' + why[:300] + ']'))
+            elif not v:
+                unconfirmed.append((pt, why))
+        if rnd >= 5:
+            break
+    skipped.extend(pending)
     import shutil
     shutil.rmtree(root, ignore_errors=True)
     return acc, violations, unconfirmed, skipped
@@ -321,7 +328,7 @@ def check(ctx):
         ctx.notes.append('deadline: %d box points not run' % len(skipped))
     if not acc.per_n:
         ctx.broken.append('no session completed')
-    if any(L.get('same_tag', 0) for L in acc.per_n.values()):
+    if not violations and any(L.get('same_tag', 0) for L in acc.per_n.values()):
         ctx.broken.append('the box script put and got between two ranks in one direction with equal data tags: the script is supposed to exclude that')
     return ctx.finish(RULE, ASSUME)
 
